@@ -132,7 +132,7 @@ def _reference(H, samples, vcols, dense, probes):
     return val, grad[vcols], met, acts
 
 
-DENSE_MAX = 6
+DENSE_MAX = 4
 
 
 def _compare(kl, H, keys, C, rec, tag, samples=None, dense=True):
@@ -181,6 +181,21 @@ def _residuals_public(sl, mean):
     return [nx.flat(s) - m for s in sl.iterator()]
 
 
+def _geo_ok(H):
+    """geoVI sampling needs a coordinate transformation with a sampling dtype for every likelihood summand
+    (draw_samples asserts it); otherwise the case falls back to MGVI sampling"""
+    try:
+        tr = H.likelihood_energy.get_transformation()
+    except NotImplementedError:
+        return False
+    if tr is None:
+        return False
+    dt = tr[0]
+    if isinstance(dt, dict):
+        return all(v is not None for v in dt.values())
+    return dt is not None
+
+
 def _check_split(ift_, H, X, keys, C, P, rec, classes, comm=None):
     dom = H.domain
     Cset = set(C)
@@ -188,8 +203,9 @@ def _check_split(ift_, H, X, keys, C, P, rec, classes, comm=None):
     tag = f"C={C} P={P} mirror={rec['mirror']} n={rec['n_samples']}"
     xbytes = _mfbytes(X)
     sampler = None
-    if rec["geo"]:
-        sampler = ift.NewtonCG(ift.GradientNormController(iteration_limit=rec["geo"]))
+    if rec["geo"] and _geo_ok(H):
+        sampler = ift.NewtonCG(ift.GradientNormController(iteration_limit=rec["geo"]), max_cg_iterations=8)
+        classes.add("geoVI")
     with ift.random.Context(rec["seed"]):
         try:
             kl = ift.SampledKLEnergy(X, H, rec["n_samples"], sampler, mirror_samples=rec["mirror"],
@@ -319,7 +335,10 @@ def _classes_of(rec, keys, classes):
     classes.add(f"nkeys_{len(keys)}")
     classes.add("mirrored" if rec["mirror"] else "unmirrored")
     classes.add(f"n_samples_{rec['n_samples']}")
-    classes.add("geoVI" if rec["geo"] else "MGVI")
+    if rec["geo"] and "geoVI" not in classes:
+        classes.add("geo_unavailable")
+    if "geoVI" not in classes:
+        classes.add("MGVI")
     return classes
 
 
@@ -407,7 +426,7 @@ class _WideCtx(c04.Ctx):
 
 
 def _universe(draw):
-    nkeys = draw(st.sampled_from([2, 2, 3]))
+    nkeys = draw(st.sampled_from([2, 2, 2, 3]))
     ntypes = draw(st.sampled_from([1, 1, 2]))
     mx = 5 if nkeys == 2 else 3
     types = {}
